@@ -103,7 +103,12 @@ def run(ctx):
                 exact_in = a != "Real" and b != "Real"
                 ok = (all(g in ("Integer", "Rational") for g in got) if exact_in else got == ["Real"]) and bool(got)
                 ctx.inst("C09-contagion", "%s/%s,%s" % (opn, a, b), {"result_kinds": got})
-                if not ok:
+                if not ok and not got:
+                    # no result whose kind could be read (a result built by a construct the interval interpreter has no model for):
+                    # nothing wrong was seen
+                    ctx.undecided("C09-contagion", "%s/%s,%s" % (opn, a, b), "the kind of the result of %s(%s, %s) could not be read" % (opn, a, b),
+                                  where_of(f))
+                elif not ok:
                     ctx.report("C09-contagion", "%s/%s,%s" % (opn, a, b), "%s(%s, %s) yields %s: %s" % (
                         opn, a, b, got, "exact operands must give an exact result" if exact_in else "an inexact operand must give an inexact result"), where_of(f))
     for opn, path in OPS1.items():
@@ -118,7 +123,9 @@ def run(ctx):
             if opn == "abs" and a != "Real":
                 want_ok = got == [a]
             ctx.inst("C09-contagion", "%s/%s" % (opn, a), {"result_kinds": got})
-            if not want_ok:
+            if not want_ok and not got:
+                ctx.undecided("C09-contagion", "%s/%s" % (opn, a), "the kind of the result of %s(%s) could not be read" % (opn, a), where_of(f))
+            elif not want_ok:
                 ctx.report("C09-contagion", "%s/%s" % (opn, a), "%s(%s) yields %s" % (opn, a, got), where_of(f))
     # floor-quotient / floor-remainder are compositions of the above: formula trees on two opaque numbers
     from . import numtables as _nt2
@@ -319,6 +326,7 @@ def full_range_failures(fb, paths, pos_den_only=False):
     failing = {}
     lo, hi = interval.I32
     full_range_failures.visited = set()           # every function an obligation was met in (helpers are inlined by the interpreter)
+    full_range_failures.entry_of = {}             # (function, op) -> the operation (entry function) under which it was first met
     for opn, path in sorted(paths.items()):
         f = fb.find(path)
         for label, args, allpos in _cases(fb, f, opn, lo, hi):
@@ -338,9 +346,11 @@ def full_range_failures(fb, paths, pos_den_only=False):
                 if kind in ("Overflow", "OverflowNeg") or (kind == "Bare" and op in ("Add", "Sub", "Mul", "Neg")):
                     if not ok:
                         failing.setdefault((fn, "Neg" if kind == "OverflowNeg" else (op or kind)), (label, span, kind))
+                        full_range_failures.entry_of.setdefault((fn, "Neg" if kind == "OverflowNeg" else (op or kind)), f.name)
                 if kind == "Cast" and not ok and op and "->" in op:
                     # a narrowing `as` cast of a value that may not fit: no panic, the exact number silently becomes another one
                     failing.setdefault((fn, "Cast:" + op), (label, span, "Cast"))
+                    full_range_failures.entry_of.setdefault((fn, "Cast:" + op), f.name)
             # intervals do not relate operands to one another (a quotient to its divisor, a flag to the value it was computed
             # from): what they report as possible is confirmed on boundary operands, where the same interpreter is exact
             for key_ in [k_ for k_, v_ in failing.items() if v_[0] == label and len(v_) == 3 and k_[1] != "analysis"]:
@@ -351,7 +361,22 @@ def full_range_failures(fb, paths, pos_den_only=False):
 _WVALS = None
 
 
-def _witness(fb, f, args, key, kind, cap=1500):
+def _den_witness(fb, f, args, cap=1500):
+    """operand values (ends of the ranges, small numbers) for which a ratio with a non-positive denominator is built when the interval
+    interpreter is run on those single values and takes no branch both ways; None when none of the values tried does"""
+    def found(it):
+        if it.nforks:
+            return False
+        for (fn, blk, e) in it.aggregates:
+            if e.adt and e.adt.endswith("values::Number") and e.name == "Rational":
+                d = e.fields[1]
+                if isinstance(d, IV) and d.lo == d.hi and d.lo <= 0:
+                    return True
+        return False
+    return _witness(fb, f, args, None, None, cap=cap, found=found)
+
+
+def _witness(fb, f, args, key, kind, cap=1500, found=None):
     """operand values (taken from the ends of the ranges and small numbers) for which the operation named by `key` leaves its type
     when the interval interpreter is run on those single values; None when none of the values tried does"""
     import itertools
@@ -370,8 +395,9 @@ def _witness(fb, f, args, key, kind, cap=1500):
         collect(a)
     if not slots or len(slots) > 4:
         return None
-    choices = [[c for c in cand if iv.lo <= c <= iv.hi] or [iv.lo] for (_, _, iv) in slots]
-    fn, op = key
+    choices = [[c for c in ([iv.lo, iv.hi] + cand) if iv.lo <= c <= iv.hi] or [iv.lo] for (_, _, iv) in slots]
+    choices = [list(dict.fromkeys(ch)) for ch in choices]
+    fn, op = key if key else (None, None)
     tried = 0
     saved = [(e, i, e.fields[i]) for (e, i, _) in slots]
     try:
@@ -386,8 +412,12 @@ def _witness(fb, f, args, key, kind, cap=1500):
                 it.run(f, args)
             except RuntimeError:
                 continue
+            if found is not None:
+                if found(it):
+                    return list(combo)
+                continue
             for (fn2, blk, kind2, op2, ok, span) in it.obligations:
-                if ok or fn2 != fn:
+                if ok or fn2 != fn or (fn2, blk) not in it.definite:
                     continue
                 name2 = "Neg" if kind2 == "OverflowNeg" else (("Cast:" + op2) if kind2 == "Cast" else (op2 or kind2))
                 if name2 == op:
@@ -399,6 +429,7 @@ def _witness(fb, f, args, key, kind, cap=1500):
 
 
 full_range_failures.visited = set()
+full_range_failures.entry_of = {}
 _GRID = {}
 
 
@@ -483,7 +514,7 @@ def range_and_sign(ctx, fb, census=True):
                     short = fn.rsplit("::", 1)[-1] if not fn.startswith("<") else fn.split(" as ")[-1].replace(">::", "::").rsplit("::", 2)[-1]
                     seen_never.setdefault((fn, op or kind, kind), span)
                     if not ok:
-                        bad_range.setdefault((fn, op or kind), (label, span))
+                        bad_range.setdefault((fn, op or kind), (label, span, f, args))
             ctx.inst("C09-range", label, {"i32_operations": n_obl, "paths": len(res)}, nontrivial=n_obl > 0)
             # denominators of every ratio built, when all operand denominators are positive
             opnd_den_pos = (A[0] != "Rational" or A[1] == "pos") and (Bc is None or Bc[0] != "Rational" or Bc[1] == "pos")
@@ -496,12 +527,19 @@ def range_and_sign(ctx, fb, census=True):
                         if not okd and OPS2["div"] in stk and division_table_holds(fb):
                             continue                 # built inside the division: decided by the symbolic division table
                         if not okd:
-                            neg_den.setdefault(fn, (label, repr(d)))
-    for (fn, op), (label, span) in sorted(bad_range.items()):
-        ctx.report("C09-range", "%s/%s" % (_short(fn), op), "with operands below 2^15 the i32 %s in %s can overflow (case %s)" % (op, _short(fn), label),
-                   mir.span_loc(span))
+                            neg_den.setdefault(fn, (label, repr(d), f, args))
+    for (fn, op), (label, span, f_, args_) in sorted(bad_range.items(), key=lambda kv: kv[0]):
+        # (intervals lose what relates one operand to another — a value passed through a closure, a flag computed from it: what they
+        # report as possible is confirmed on boundary operands)
+        wit = _witness(fb, f_, args_, (fn, op), None)
+        if wit is None:
+            ctx.undecided("C09-range", "%s/%s" % (_short(fn), op), "interval analysis cannot bound the i32 %s in %s for operands below 2^15 (case %s), "
+                          "but no boundary operand makes it overflow" % (op, _short(fn), label), mir.span_loc(span))
+            continue
+        ctx.report("C09-range", "%s/%s" % (_short(fn), op), "with operands below 2^15 the i32 %s in %s can overflow (case %s, e.g. operands %s)" % (
+            op, _short(fn), label, wit), mir.span_loc(span))
     if total < 30:
-        ctx.report("C09-range", "floor", "only %d arithmetic obligations analysed (expected >= 30)" % total)
+        ctx.undecided("C09-range", "floor", "only %d arithmetic obligations analysed (expected >= 30)" % total)
     # every OTHER function that takes numbers and (through the functions it calls) builds a ratio: the invariant has to hold for
     # whatever entry point constructs ratios, not only for the operators listed above.  Functions that are called from an
     # analysed function are covered by that caller (they may have preconditions their caller establishes).
@@ -559,13 +597,24 @@ def range_and_sign(ctx, fb, census=True):
                     if not okd and OPS2["div"] in stk and division_table_holds(fb):
                         continue
                     if not okd:
-                        neg_den.setdefault(g.name, (label, repr(d)))
+                        neg_den.setdefault(g.name, (label, repr(d), g, [c[1] for c in combo]))
     ctx.inst("C09-denominator-sign", "other-ratio-builders", {"functions": [g.name for g in extra]})
-    for fn, (label, d) in sorted(neg_den.items()):
+    confirmed = {}
+    for fn, (label, d, f_, args_) in sorted(neg_den.items()):
+        # (what the intervals allow is confirmed on single operand values, every construct on the way followed exactly: a guard the
+        # interpreter cannot read — a zero test behind Option / Result combinators — leaves both branches open and proves nothing)
+        wit = _den_witness(fb, f_, args_)
+        if wit is None:
+            ctx.undecided("C09-denominator-sign", _short(fn), "interval analysis cannot show the denominator built in %s positive (it ranges "
+                          "over %s in case %s), but no operand values tried give a non-positive one on a path followed exactly"
+                          % (_short(fn), d, label), where_of(fb.by_path(fn)))
+            continue
+        confirmed[fn] = wit
         ctx.report("C09-denominator-sign", _short(fn), "given positive operand denominators %s builds a ratio whose denominator "
-                   "ranges over %s (case %s): a zero denominator is a division by exact zero that went unreported, a negative one makes "
-                   "comparison, floor/ceiling and the printed form wrong"
-                   % (_short(fn), d, label), where_of(fb.by_path(fn)))
+                   "ranges over %s (case %s, e.g. operands %s): a zero denominator is a division by exact zero that went unreported, a negative "
+                   "one makes comparison, floor/ceiling and the printed form wrong"
+                   % (_short(fn), d, label, wit), where_of(fb.by_path(fn)))
+    neg_den = confirmed
     if not census:
         return
     # never-wrong-exact: operations that can leave their type for some i32 operands (full-range interval run);
@@ -577,15 +626,22 @@ def range_and_sign(ctx, fb, census=True):
     for (fn, op) in sorted(checked):
         ctx.inst("C09-never-wrong-exact", "%s/%s" % (_short(fn), op), {"overflow_possible_for_some_i32": (fn, op) in fails})
         ctx.oblige((fn, op) not in fails)
+    reported_keys = set()
     for (fn, op), info in sorted(fails.items()):
         label, span = info[0], info[1]
         kind = info[2] if len(info) > 2 else "?"
+        # a finding is the operation that fails (`+` on operands that overflow its i32 Add), wherever the arithmetic is written:
+        # keyed by the number operation under which the overflow is met, not by the helper that happens to hold the operator
+        fn_key = full_range_failures.entry_of.get((fn, op), fn)
+        if ("%s/%s" % (_short(fn_key), op)) in reported_keys:
+            continue
+        reported_keys.add("%s/%s" % (_short(fn_key), op))
         if len(info) > 3 and info[3] is None:
-            ctx.undecided("C09-never-wrong-exact", "%s/%s" % (_short(fn), op), "interval analysis cannot bound the exact i32 %s in %s "
+            ctx.undecided("C09-never-wrong-exact", "%s/%s" % (_short(fn_key), op), "interval analysis cannot bound the exact i32 %s in %s "
                           "(case %s), but none of the boundary operands tried makes it leave the i32 range: the operands are related "
                           "in a way intervals do not express" % (op, _short(fn), label), mir.span_loc(span))
             continue
-        ctx.report("C09-never-wrong-exact", "%s/%s" % (_short(fn), op),
+        ctx.report("C09-never-wrong-exact", "%s/%s" % (_short(fn_key), op),
                    "exact i32 %s in %s can exceed the i32 range for some operands (case %s) and is a bare operator: it %s instead "
                    "of reporting an error or promoting" % (op, _short(fn), label,
                                                           "wraps to a different exact number" if kind == "Bare" else (
